@@ -10,9 +10,8 @@ Theorems about `Model/Iter.lean`, the model of `AnalyticalPropagator.iter`, `Num
 `KeplerNum._iter`, `Ephem.iter`, `Date.range`, `Orbit.propagate/iter` re-binding and listener clearing.
 `⌊(stop − start)/step⌋` is always expressed by its two bracketing inequalities on `n`.
 Histories consist of `propagate`, `iter` (consumed fully, partly, not at all) and in-place modifications of an orbit by the user;
-`propagate_pure_partial` holds for every such history and every propagator kind provided what Sgp4 compares of an orbit
-(`Sgp4._state`: coordinates, date, form, frame) determines the orbit value — false when a drag term is changed in place
-(`Witness/C08.lean: sgp4_stale_after_drag_change`, known finding).
+`propagate_pure` holds for every such history and every propagator kind; for Sgp4 the orbit VALUE of the model has to be what
+`Sgp4._state` compares (coordinates, date, form, frame, drag terms — `Faithful`).
 -/
 namespace BeyondVerif.C08
 open BeyondVerif.Iter
@@ -417,14 +416,25 @@ def Inv {V : Type} (w : World V) (s : St V) : Prop :=
   | none => True
   | some _ => w.kind ≠ .ephem
 
-/-- what `Sgp4.propagate` compares of the bound orbit with what its record was computed from determines the orbit value.
-TRUE of an orbit whose coordinates, date, form or frame are changed; FALSE when the user changes a drag term (`bstar`, `ndot`,
-`ndotdot`) in place: they are attributes of the orbit the record depends on, and `Sgp4._state` does not look at them. Vacuous for
-every other propagator. -/
+/-- adequacy of the abstraction for Sgp4: the abstract orbit value `V` (what the returned states `f v date` depend on) is
+determined by what `Sgp4.propagate` compares of the bound orbit with what its record was computed from — since 3d341d9 the
+coordinates, date, form, frame AND the drag terms `bstar`, `ndot`, `ndotdot`, i.e. every attribute of the orbit that reaches a
+dynamical field of the satellite record (`Tle.from_orbit` → `twoline2rv`). What it still ASSUMES: the other entries of the orbit
+(`name`, `norad_id`, `cospar_id`, `element_nb`, `revolutions`, `tle`, `type`, anything the user attached) reach only the labels
+of the TLE text and not the trajectory `sgp4` computes from the record — a statement about `Tle.from_orbit` and the `sgp4`
+package, not about the iteration code; it is exercised on the real API by the oracle (in-place changes of those entries,
+family `…-after-inplace-label-change`). Vacuous for every other propagator. `Witness/C08.lean: stale_when_not_faithful` shows
+the hypothesis cannot be dropped (it failed for the drag terms before 3d341d9). -/
 def Faithful {V : Type} (w : World V) : Prop :=
   w.kind = .sgp4 → ∀ a b : V, w.sameState a b = true → a = b
 
 theorem faithful_of_not_sgp4 {V : Type} (w : World V) (h : w.kind ≠ .sgp4) : Faithful w := fun hk => absurd hk h
+
+/-- `Faithful` holds whenever the values of the model ARE what is compared (`sameState` is equality): the harness' world -/
+theorem faithful_of_beq {V : Type} [BEq V] [LawfulBEq V] (w : World V) (h : w.sameState = fun a b => a == b) : Faithful w := by
+  intro _ a b hab
+  rw [h] at hab
+  exact eq_of_beq hab
 
 theorem inv_fresh {V : Type} (w : World V) (prev : List (Option Int)) (ver : Nat → Nat × Nat) :
     Inv w ({ prev := prev, ver := ver } : St V) := trivial
@@ -612,22 +622,13 @@ theorem call_result_pure {V R : Type} (w : World V) (f : V → Int → R) (cross
       | false =>
         simp only [Bool.false_eq_true, if_false, List.map_nil, events_nil]
 
-/- **propagate_pure**, full statement: for EVERY history of `propagate` / `iter` calls and of in-place modifications of the orbits by
-the user, for every propagator kind, the result of the next call equals the result of that call on fresh objects holding the
-current orbit values.  FALSE of the current code for Sgp4 when a drag term of the orbit (`bstar`, `ndot`, `ndotdot`) is changed in
-place after a first propagation (`Witness/C08.lean: sgp4_stale_after_drag_change`; known finding, proposed_fixes/C08-h):
-    theorem propagate_pure (w : World V) (f) (cross) (fuel nls : Nat) (hist : List Call) (c : Call) :
-      (exec w f cross fuel (runHist w f cross fuel { prev := List.replicate nls none } hist) c).2
-        = (exec w f cross fuel (freshOf (runHist w f cross fuel { prev := List.replicate nls none } hist)) c).2
-Proved below under `Faithful w` (nothing assumed for Kepler, J2, NonePropagator, KeplerNum, CW, Ephem: `propagate_pure_not_sgp4`;
-for Sgp4: the histories change coordinates / date / form / frame of the orbits, not their drag terms). -/
-
-/-- **propagate_pure_partial**: for EVERY history of `propagate` / `iter` calls and of in-place modifications of the orbits by the
-user (any orbits sharing the propagator, any listeners, iterators consumed fully, partly or not at all), the result of the next
-call equals the result of that call on fresh objects holding the current orbit values — provided, for Sgp4, that what it
-compares of an orbit determines the orbit (`Faithful`). In-place changes of the coordinates under Sgp4 are covered (they were
-the exception before c604b3e). -/
-theorem propagate_pure_partial {V R : Type} (w : World V) (f : V → Int → R) (cross : V → Int → Int → Bool) (fuel nls : Nat)
+/-- **propagate_pure**: for EVERY history of `propagate` / `iter` calls and of in-place modifications of the orbits by the user
+(their coordinates and, for Sgp4, their drag terms; any orbits sharing the propagator, any listeners, iterators consumed fully,
+partly or not at all), for EVERY propagator kind, the result of the next call equals the result of that call on fresh objects
+holding the current orbit values. `Faithful w` is the adequacy of the model's orbit values for Sgp4 (see its definition: it
+holds when they are what `Sgp4._state` compares, `faithful_of_beq`; nothing is assumed for the other kinds,
+`propagate_pure_not_sgp4`). Was `_partial` (false for drag-term changes) before 3d341d9. -/
+theorem propagate_pure {V R : Type} (w : World V) (f : V → Int → R) (cross : V → Int → Int → Bool) (fuel nls : Nat)
     (hist : List Call) (c : Call) (hF : Faithful w) :
     let s0 : St V := { prev := List.replicate nls none }
     let s := runHist (R := R) w f cross fuel s0 hist
@@ -642,12 +643,18 @@ theorem propagate_pure_not_sgp4 {V R : Type} (w : World V) (f : V → Int → R)
     let s0 : St V := { prev := List.replicate nls none }
     let s := runHist (R := R) w f cross fuel s0 hist
     (exec w f cross fuel s c).2 = (exec w f cross fuel (freshOf s) c).2 :=
-  propagate_pure_partial w f cross fuel nls hist c (faithful_of_not_sgp4 w hk)
+  propagate_pure w f cross fuel nls hist c (faithful_of_not_sgp4 w hk)
 
--- the hypothesis is satisfiable by an Sgp4 world whose orbit values ARE what Sgp4 compares (object, number of element changes)
-example : Faithful ({ kind := .sgp4, store := fun i k => (i, k.1), sameState := fun a b => a == b, epoch := fun _ => 0 } : World (Nat × Nat)) := by
-  intro _ a b h
-  simpa using h
+/-- **propagate_pure** for Sgp4 in the world the correspondence runs: orbit values = (object, number of changes of its
+elements, number of changes of its drag term), all of it compared -/
+theorem propagate_pure_sgp4 {R : Type} (store : Nat → Nat × Nat → Nat × Nat × Nat) (f : Nat × Nat × Nat → Int → R)
+    (cross : Nat × Nat × Nat → Int → Int → Bool) (fuel nls : Nat) (hist : List Call) (c : Call) :
+    let w : World (Nat × Nat × Nat) := { kind := .sgp4, store := store, sameState := fun a b => a == b, epoch := fun _ => 0 }
+    let s0 : St (Nat × Nat × Nat) := { prev := List.replicate nls none }
+    let s := runHist (R := R) w f cross fuel s0 hist
+    (exec w f cross fuel s c).2 = (exec w f cross fuel (freshOf s) c).2 := by
+  intro w
+  exact propagate_pure w f cross fuel nls hist c (faithful_of_beq w rfl)
 
 /-- every yielded state is what a direct propagation of the receiver, as it is now, to that date gives
 (in the model: `f (current value of orbit i) date`) -/
